@@ -120,6 +120,7 @@ def run_case(case, ctx):
     xs = np.asarray(x, float)
     shape = xs.shape
 
+    x_before = np.array(xs, copy=True)
     # --- closed forms against the definitions -------------------------
     V = sp.volume_from_radius(x, d)
     ctx.op()
@@ -179,6 +180,7 @@ def run_case(case, ctx):
     ctx.check("C12.variants-agree", eq(sc, np.broadcast_to(S, shape)) and np.shape(sc) == shape, {"variant": "surface_from_radius/compiled", "val": sc, "ref": S})
     ctx.check("C12.radius-formula", eq(R, [xs / 2, np.sqrt(xs / PI), np.cbrt(3 * xs / (4 * PI))][d - 1], 1e-14))
 
+    ctx.check("C12.argument-unmodified", bool(np.array_equal(np.asarray(x, float), x_before)), {"before": x_before, "after": np.asarray(x, float)})
     # --- droplet accessors (scalar forms only) -------------------------
     if form in ("float", "np64"):
         pos = np.array([0.3, -1.2, 2.0][:d])
@@ -200,10 +202,20 @@ def run_case(case, ctx):
             ctx.op()
             ctx.check("C12.droplet", eq(fv.volume, x0) and np.array_equal(fv.position, pos) and fv.dim == d, {"from_volume": fv.volume, "want": x0})
             ctx.check("C12.droplet", eq(fv.radius, float(sp.radius_from_volume(x0, d))), {"from_volume.radius": fv.radius})
-            drop2 = cls(pos, 1.0)
-            drop2.volume = x0
-            ctx.op()
-            ctx.check("C12.setter", eq(drop2.volume, x0) and np.array_equal(drop2.position, pos), {"set": x0, "get": drop2.volume})
+            for r_start in (1.0, 0.0, 3.7e-9):
+                for via_zero in (False, True):
+                    drop2 = cls(pos, r_start)
+                    try:
+                        if via_zero:
+                            drop2.volume = 0.0
+                            ctx.op()
+                        drop2.volume = x0 if not via_zero else np.float64(x0)
+                        ctx.op()
+                        got = drop2.volume
+                    except Exception as e:  # noqa
+                        got = repr(e)
+                    ctx.check("C12.setter", not isinstance(got, str) and eq(got, x0) and np.array_equal(drop2.position, pos) and eq(drop2.radius, float(sp.radius_from_volume(x0, d))),
+                              {"start_radius": r_start, "via_zero": via_zero, "set": x0, "get": got})
 
 
 def expected_positive(tier):
